@@ -46,7 +46,10 @@ def scenarios(rng, thorough):
             out.append(sc)
     big = ["B %x" % v for v in (2**64 - 1, 2**64 - 4 * PAGE, 2**64 - 4 * PAGE - 1, 2**64 - 4 * PAGE + 1, 2**63, 2**64 - 5 * PAGE, 2**48)]
     arr = ["A %x %x" % (c, s) for c, s in ((2**32, 2**32), (2**32 + 1, 2**32), (2**63, 2), (2**63 + 1, 2), (3, (2**64 - 1) // 3 + 1), (3, (2**64 - 1) // 3),
-                                         (2**64 - 1, 1), (2**64 - 1, 2), (1, 2**64 - 1), (0, 2**64 - 1), (2**64 - 1, 0), (7, 11), (0, 0), (4096, 3), (2**16, 2**48), (2**16 + 1, 2**48))]
+                                         (2**64 - 1, 1), (2**64 - 1, 2), (1, 2**64 - 1), (0, 2**64 - 1), (2**64 - 1, 0), (7, 11), (0, 0), (4096, 3), (2**16, 2**48), (2**16 + 1, 2**48),
+                                         # products that wrap to a few GiB, not smaller than either factor: a test on the wrapped product alone accepts them
+                                         (2**32 + 1, 2**32 + 1), (0x100010000, 0xFFFF0002), (2**32 + 2, 2**32 + 3),
+                                         (2**32 + rng.randrange(1, 2**16), 2**32 + rng.randrange(1, 2**16)), (2**33 + 1, 2**31 + 1), (2**40 + 3, 2**24 + 1))]
     out.append(big + arr)
     return out, sizes
 
